@@ -321,3 +321,26 @@ Section RestoreMain.
     intros q l Hl. apply (P_rank_repair _ _ _ _ _ _ _ Hme Eq0 q l Hl). apply L1 with q; auto.
   Qed.
 End RestoreMain.
+
+(* sync on a consistent world changes nothing (C13_restore with the empty deletion): the second of two syncs is idle *)
+Lemma renum_none numb l : map (renum numb (fun _ => false)) l = l.
+Proof. induction l as [|x r IH]; simpl; [reflexivity|]. rewrite IH. reflexivity. Qed.
+
+Lemma del_none pr : del_proc (fun _ => false) pr = pr.
+Proof.
+  destruct pr as [iset ri]. unfold del_proc. simpl. f_equal.
+  - induction iset as [|x r IH]; simpl; [reflexivity|]. rewrite IH. reflexivity.
+  - induction ri as [|[q l] r IH]; simpl; [reflexivity|]. rewrite IH. f_equal. f_equal.
+    induction l as [|e l' IHl]; simpl; [reflexivity|]. rewrite IHl. reflexivity.
+Qed.
+
+Lemma P_sync_idempotent W numb p order : consistent W ->
+  (forall s, In s order <-> In s (map fst (c13_ri (c13_proc_of W p)))) ->
+  exists ptrs, c13_sync_rank c13_fixed numb W p order = C13Ok (c13_iset (c13_proc_of W p)) (c13_ri (c13_proc_of W p)) ptrs.
+Proof.
+  intros HW Hord.
+  destruct (P_restore W W (fun _ _ => false) numb p order HW) as [ptrs [H _]]; auto.
+  - intros q. rewrite del_none. reflexivity.
+  - intros q ip _ Hd. discriminate.
+  - exists ptrs. rewrite renum_none in H. exact H.
+Qed.
